@@ -72,6 +72,6 @@ func (s Stack) Apply(opt *Option, profile string) (string, error) {
 		return "", fmt.Errorf("no end of rules found in %s", opt.File)
 	}
 	profile = strings.ReplaceAll(profile, m[0], res+m[0])
-	profile = strings.ReplaceAll(profile, opt.Raw, "")
+	profile = opt.ReplaceLine(profile, "")
 	return profile, nil
 }
